@@ -1,3 +1,4 @@
+#[cfg(not(mrecordlog_verif))]
 use std::fs::{File, OpenOptions};
 use std::io::{self, BufWriter, Read, Seek, SeekFrom, Write};
 use std::path::{Path, PathBuf};
@@ -6,6 +7,8 @@ use tracing::info;
 
 use super::{FileNumber, FileTracker};
 use crate::rolling::{FILE_NUM_BYTES, FRAME_NUM_BYTES};
+#[cfg(mrecordlog_verif)]
+use crate::verif_hooks::fs::{File, OpenOptions};
 use crate::{BlockRead, BlockWrite, PersistAction, BLOCK_NUM_BYTES};
 
 pub struct Directory {
@@ -46,6 +49,8 @@ impl Directory {
     /// Open a `Directory`, or create a new, empty, one. `dir_path` must exist and be a directory.
     pub fn open(dir_path: &Path) -> io::Result<Directory> {
         let mut file_numbers: Vec<u64> = Default::default();
+        #[cfg(mrecordlog_verif)]
+        crate::verif_hooks::fs::on_read_dir(dir_path)?;
         for dir_entry_res in std::fs::read_dir(dir_path)? {
             let dir_entry = dir_entry_res?;
             if !dir_entry.file_type()?.is_file() {
@@ -91,6 +96,8 @@ impl Directory {
         while let Some(file) = self.files.take_first_unused() {
             let filepath = filepath(&self.dir, &file);
             info!(file=%filepath.display(), "gc remove file");
+            #[cfg(mrecordlog_verif)]
+            crate::verif_hooks::fs::on_remove_file(&filepath)?;
             std::fs::remove_file(&filepath)?;
         }
         Ok(())
@@ -268,6 +275,8 @@ impl BlockWrite for RollingWriter {
             self.file_number = file_number;
             self.offset = 0;
         }
+        #[cfg(mrecordlog_verif)]
+        crate::verif_hooks::on_block_write(self.file_number.file_number(), self.offset, buf);
         self.offset += buf.len();
         self.file.write_all(buf)?;
         Ok(())
